@@ -167,6 +167,10 @@ def compact_faults(base: EBase, other: EBase | None, tier, rng):
             yield f"{names[si]}-extend", f"+{n}", ".".join(p)
             p[si] = b64u_enc(rng.randbytes(n) + data)
             yield f"{names[si]}-extend", f"{n}+", ".".join(p)
+    for name, t in (("token+LF", base.token + "\n"), ("LF+token", "\n" + base.token), ("token+SP", base.token + " "), ("tag+LF", ".".join(segs[:4] + [segs[4] + "\n"])),
+                    ("iv+LF", ".".join(segs[:2] + [segs[2] + "\n"] + segs[3:])), ("header+LF", ".".join([segs[0] + "\n"] + segs[1:])),
+                    ("tag+pad", ".".join(segs[:4] + [segs[4] + "=" * ((-len(segs[4])) % 4 or 4)])), ("token+dot", base.token + ".")):
+        yield "whitespace-or-padding", name, t
     # paired length faults: the ciphertext/tag (and IV/ciphertext) boundary moved, total octets unchanged
     ct, tg, ivb = dec[3], dec[4], dec[2]
     for n in sorted({1, 2, 4, 8, 12, len(tg) - 1, len(tg)}):
@@ -598,7 +602,7 @@ def run_shard(ctx):
             if o.ok:
                 b2 = EBase("compact", o.value, {}, base.plaintext, base.recs, json.loads(b64u_dec(o.value.split(".")[0])))
                 run_base(mon, b2, None, ctx, families={"respell-protected", "noncanonical-b64-protected", "bitflip-tag", "bitflip-iv", "tag-truncate",
-                                                       "iv-truncate", "tag-extend", "nonempty-ek-direct", "zip-added", "tag-boundary-shift", "iv-boundary-shift"})
+                                                       "iv-truncate", "tag-extend", "nonempty-ek-direct", "zip-added", "tag-boundary-shift", "iv-boundary-shift", "whitespace-or-padding"})
     mon.tr.stop()
 
 
